@@ -384,3 +384,12 @@ def check(run, prog, tier):
     oku = bool(fcall) and ro.point_dominates((fcall[0][0].id, fcall[0][1]), (unl[0][0].id, unl[0][1]))
     run.ob("C08-g", "unlink-after-lookup", oku, "remove_object_hash looks the object up (moving it to the head) before unlinking the head", ro.file, unl[0][2].get("l"), "remove_object_hash",
            what="remove_object_hash unlinks the bucket head without first moving the object there")
+
+    # ---- C08-h a destructed object is never called
+    run.rule("C08-h", "an object pointer held in a local across a call that may run LPC code is handed to apply()/apply_low()/safe_apply() as the target only after a new test of its O_DESTRUCTED flag (or a fresh assignment): apply does not refuse destructed targets itself", 5)
+    import rules.C08h as c08h
+    c08h.check(run, prog, cg, callgraph.Effects(cg))
+
+    # ---- C08-i list walks do not follow links out of objects a callback may have unlinked
+    run.rule("C08-i", "a loop that follows next_all / next_inv reads the link of its current object only while no LPC-running call has intervened since that object was last known alive and in place (O_DESTRUCTED test, environment test or fresh assignment); otherwise the successor must have been saved before the call", 3)
+    c08h.check_walks(run, prog, cg)
